@@ -50,6 +50,30 @@ def big_block_program(x, dt="f64", spd=140000):
             "model": {"sigs": {"1": {"dt": dt, "bits": progs.WIDTH[dt], "norm": [nspd, nsdf, neps, nsum], "length": n}}}}
 
 
+def deep_pyramid_program(x, dt, total, rng):
+    """smallest block geometry and enough samples for four (thorough: five) index levels: the reader's descent has to
+    pass every level, with windows spread over the whole signal"""
+    ops = [{"op": "wopen"}, {"op": "source", "id": 1, "name": ["lit", "s"]},
+           {"op": "signal", "id": 1, "src": 1, "dt": dt, "rate": 1000, "spd": 10, "sdf": 10, "eps": 10, "sumdf": 10,
+            "name": ["lit", "deep"], "units": ["lit", "u"]}]
+    n = 0
+    while n < total:
+        k = min(total - n, rng.choice([777, 1000, 4096, 12345]))
+        ops.append({"op": "fsr", "sig": 1, "id": n, "n": k})
+        n += k
+    ops += [{"op": "wclose"}, {"op": "ropen"}, {"op": "len", "sig": 1}]
+    nspd, nsdf, neps, nsum = progs.normalise(dt, 10, 10, 10, 10)
+    l1 = neps * nsdf                    # samples per level-1 index chunk
+    starts = [0, l1 - 1, l1 * nsum - 3, l1 * nsum * nsum - 7, l1 * nsum * nsum + 5, total // 2, total - 60, total - 1]
+    starts += [rng.randint(0, total - 1) for _ in range(10)]
+    for st in starts:
+        st = max(0, min(st, total - 1))
+        ops.append({"op": "rd", "sig": 1, "start": st, "n": min(50, total - st)})
+    ops.append({"op": "rclose"})
+    return {"x": x, "kind": "c01-deep", "feat": ["deep-pyramid", "type-" + dt], "ops": ops,
+            "model": {"sigs": {"1": {"dt": dt, "bits": progs.WIDTH[dt], "norm": [nspd, nsdf, neps, nsum], "length": total}}}}
+
+
 def run(tier):
     ck = C.Check("C01")
     rng = random.Random(C.seed() * 7919 + 1)
@@ -58,8 +82,10 @@ def run(tier):
     r = C.tlc("JlsApiGen", "JlsApiGen_mc.cfg", timeout=1200, heap="8g")
     if not ck.add_mc("JlsApiGen MaxCalls=4 (contract self-check)", r):
         ck.violation({"where": "model", "config": "JlsApiGen_mc", "invariant": r.violated})
-    P = programs_for(rng, 1200 if thorough else 260, thorough)
+    P = programs_for(rng, 30000 if thorough else 260, thorough)
     P.append(big_block_program(len(P) + 1))
+    for dt, total in [("f32", 50000), ("i16", 40000), ("u8", 70000)] + ([("f64", 400000), ("u1", 600000)] if thorough else []):
+        P.append(deep_pyramid_program(len(P) + 1, dt, total, rng))
     if thorough:
         P.append(big_block_program(len(P) + 1, "u8", 1500000))
     trace, v, other = apicheck.run_api(ck, P, "c01", {"C01"})
